@@ -260,7 +260,7 @@ func c16FloorTerms(c *Ctx) {
 		reason string
 	}
 	for _, sp := range []spec{
-		{"onNewBlock", [][]string{{"!(", "l1Head.BlockNumber <= block", "Number"}, {"!(", "Number < p.numRetainedBlocks"}}, "Number - p.numRetainedBlocks", "prune only L1-confirmed blocks, bound = head − retained"},
+		{"onNewBlock", [][]string{{"!(", ".BlockNumber <= block", "Number"}, {"!(", "Number < p.numRetainedBlocks"}}, "Number - p.numRetainedBlocks", "prune only L1-confirmed blocks, bound = head − retained"},
 		{"onNewL1Head", [][]string{{"!(", "l1Head.BlockNumber >= "}, {"!(", "l1Head.BlockNumber < p.numRetainedBlocks"}}, "l1Head.BlockNumber - p.numRetainedBlocks", "prune only below the chain height, bound = l1Head − retained"},
 	} {
 		fn := p.Func("pruner", "Pruner", sp.fn)
